@@ -520,7 +520,24 @@ def bool_value_calls(body, o, depth=12):
     while todo:
         o, neg, d = todo.pop()
         p = op_place(o)
-        if p is None or p["p"] or d > depth:
+        if p is None or d > depth:
+            continue
+        if p["p"]:
+            # the payload of a helper's `Ok(flag)` taken out with `?` (`x as Continue.0`, x = Try::branch(r), r = Ok{flag})
+            # or matched directly (`r as Ok.0`)
+            if len(p["p"]) == 2 and p["p"][0] in ("as:Continue", "as:Ok", "as:Some"):
+                srcs = [p["l"]]
+                if p["p"][0] == "as:Continue":
+                    srcs = [op_local(df[2]["args"][0]) for df in ba.defs.get(p["l"], []) if df[0] == "call" and
+                            any(re.fullmatch(r"(<.* as )?core::ops::try_trait::Try>?::branch", q) for q in callee_paths(df[2])) and df[2]["args"]]
+                for s_ in srcs:
+                    for df in ba.defs.get(s_, []) if s_ is not None else []:
+                        if df[0] == "stmt" and df[3]["k"] == "agg" and df[3].get("variant") in ("Ok", "Some") and len(df[3]["ops"]) == 1:
+                            todo.append((df[3]["ops"][0], neg, d + 1))
+                        elif df[0] == "stmt" and df[3]["k"] == "use" and op_place(df[3]["op"]) is not None and not op_place(df[3]["op"])["p"]:
+                            for df2 in ba.defs.get(op_place(df[3]["op"])["l"], []):
+                                if df2[0] == "stmt" and df2[3]["k"] == "agg" and df2[3].get("variant") in ("Ok", "Some") and len(df2[3]["ops"]) == 1:
+                                    todo.append((df2[3]["ops"][0], neg, d + 1))
             continue
         if (p["l"], neg) in seen:
             continue
